@@ -846,6 +846,11 @@ def run_fail_case(ctx, rep, case, tcases=None):
         if ea == 'Hang':
             rep.violate(b.hang_key(m0), f'constructor did not return within 2 s for ALIASES={m0}', jc)
             return 'hang'
+        cls_now = (dict(A.ALIASES), list(A.PREFERRED_NAMES), list(getattr(Base, 'NAMES', [])))
+        if cls_now != (m0, list(case['pref']), (case['endo'] + case['exo']) if kind != 'container' else []):
+            rep.violate('failed-op-changed-state:class', f'the failed constructor ({ea}) changed class-level declarations: '
+                        f'ALIASES / PREFERRED_NAMES / NAMES are now {cls_now}', jc)
+            return 'class'
         if ea != ep:
             rep.violate('plain-twin-diverges:constructor', f'{kind} constructor with keywords {list(case["kwargs"])} '
                         f'(strict={case["strict"]}): aliased {ea}, plain twin with the canonical keywords {ep} '
@@ -938,6 +943,13 @@ def run_fail_case(ctx, rep, case, tcases=None):
                 rep.violate(KEY_VAR_IS_MIXIN_ATTRIBUTE, f'{where}: the variable {sp!r} reads as the mixin\'s own '
                             f'attribute ({short(ra)}); without the mixin `obj.{sp}` is the series', jc)
                 ca = cp
+        if compare and ca != cp and failed and rp[0] == 'exc' and \
+                {ra[1], rp[1]} <= {'AttributeError', 'NotImplementedError'} and \
+                not any(x in p.__dict__['index'] for x in names_p):
+            # an unknown name rejected on both sides: how many near misses there are (and hence which of the two
+            # classes is raised) is the hint's business, not the property's
+            rep.dist['failops-note:unknown-name-rejected-with-another-class'] += 1
+            cp = ca
         if compare and ca != cp:
             if ra[0] != rp[0]:
                 key = 'plain-twin-diverges:fails-only-' + ('aliased' if failed else 'plain')
@@ -1141,8 +1153,13 @@ def same_digest(x, y):
     return a == b2
 
 
+REJECT = {'AttributeError', 'NotImplementedError'}
+
+
 def same_result(mres, res):
     mres = 'VALERR' if mres in VALERR else mres
+    if mres in REJECT and res in REJECT:
+        return True          # which of the two a strict rejection raises depends on the hint (difflib) only
     if res == 'ok' or mres == 'ok':
         # a value the model does not compute (eval, get_closest_match) / does not print
         return not any(x in ('VALERR', 'KeyError', 'AttributeError', 'NotImplementedError', 'DuplicateNameError')
